@@ -207,7 +207,23 @@ static void caseC10(uint64_t idx, vh::Rng& g)
 		{ rm::JointW K = rm::jointWord({&a, &a0}, nsym); for (auto& m : K.reach) if (K.acc(m, 0) != K.acc(m, 1)) { R->violation("C10/load/language", "dump of the loaded automaton has another language"); break; } }
 		R->phase("Union"); { RFA u = faObserve(FA::Union(A, B)); bin("union", a, b, u, true); }
 		R->phase("UnionDisjointStates");
-		{ SharedDict sd; FA X = loadFA(a, nsym, "A", sd, "p"), Y = loadFA(b, nsym, "B", sd, "r"); RFA u = faObserve(FA::UnionDisjointStates(X, Y)); bin("uniondisj", a, b, u, true); }
+		{
+			SharedDict sd; FA X = loadFA(a, nsym, "A", sd, "p"), Y = loadFA(b, nsym, "B", sd, "r"); RFA x0 = faObserve(X), y0 = faObserve(Y);
+			RFA u = faObserve(FA::UnionDisjointStates(X, Y)); bin("uniondisj", a, b, u, true);
+			if (!(faObserve(X) == x0) || !(faObserve(Y) == y0)) R->violation("C10/uniondisj/operand-changed", "");
+			// the same object X again with another partner that uses Y's state NUMBERS (same names through the same
+			// dictionary) but other transitions — "unite A with each candidate" loops do exactly this
+			RFA z = b; if (!z.tr.empty()) { auto it = z.tr.begin(); std::advance(it, g.below(z.tr.size())); auto t = *it; z.tr.erase(it); z.tr.insert(std::make_tuple(std::get<0>(t), (std::get<1>(t) + 1) % std::max(1, nsym), std::get<2>(t))); }
+			for (auto& t : a.tr) if (g.chance(1, 3)) z.tr.insert(std::make_tuple(std::get<0>(t) % std::max<St>(1, b.states().size()), std::get<1>(t), std::get<2>(t) % std::max<St>(1, b.states().size())));
+			std::set<St> bs = b.states(), zs = z.states(); bool sameStates = true; for (St q : zs) if (!bs.count(q)) sameStates = false;
+			if (sameStates)
+			{
+				R->phase("UnionDisjointStates (same lhs object, second partner)"); R->count("uniondisj-second-partner");
+				FA Z = loadFA(z, nsym, "Z", sd, "r"); RFA u2 = faObserve(FA::UnionDisjointStates(X, Z)); bin("uniondisj/second-partner", a, z, u2, true);
+				RFA u3 = faObserve(FA::UnionDisjointStates(Z, X)); bin("uniondisj/second-partner", a, z, u3, true);
+				if (!(faObserve(X) == x0)) R->violation("C10/uniondisj/second-partner/operand-changed", "");
+			}
+		}
 		R->phase("Intersection");
 		{ RFA u = faObserve(FA::Intersection(A, B)); bin("isect", a, b, u, false); bool ne = false; { rm::JointW K = rm::jointWord({&u}, nsym); for (auto& m : K.reach) if (K.acc(m, 0)) ne = true; } if (ne) R->count("nonempty-intersection"); }
 		R->phase("Intersection(with map)");
@@ -268,6 +284,29 @@ static void caseC10(uint64_t idx, vh::Rng& g)
 		}
 		R->phase("Reverse");
 		{ FA rv = A.Reverse(); R->phase("Reverse: DumpToString"); RFA u = faObserve(rv); same("reverse", rm::mirror(a), u); }
+		if (idx % static_cast<uint64_t>(R->param("cli_every", 200)) == 0)
+		{	// the same operations through `vata -r expl_fa load|union|isect|witness [-p|-s]`
+			std::string fa = R->outdir + "/" + R->tag + ".A.txt", fb = R->outdir + "/" + R->tag + ".B.txt"; writeFile(fa, faToTimbuk(a, nsym, "A")); writeFile(fb, faToTimbuk(b, nsym, "B"));
+			auto run = [&](const std::string& what, const std::string& args, RFA& out) {
+				int rc = 0; R->phase("cli " + what); R->count("cli:" + what); std::string txt = runVata("-r expl_fa " + args, rc);
+				if (rc != 0) { R->violation("C10/cli/" + what + "/failed", "exit " + vh::str(rc) + ": " + txt.substr(0, 300)); return false; }
+				try { std::map<std::string, St> ids; out = faFromDump(txt, ids); } catch (std::exception& e) { R->violation("C10/cli/" + what + "/unparsable-output", e.what()); return false; }
+				return true; };
+			RFA r;
+			if (run("load", "load " + fa, r)) same("cli/load", a, r);
+			if (run("union", "union " + fa + " " + fb, r)) bin("cli/union", a, b, r, true);
+			if (run("isect", "isect " + fa + " " + fb, r)) bin("cli/isect", a, b, r, false);
+			if (run("load-s", "-s load " + fa, r)) same("cli/load-s", a, r);
+			if (run("load-p", "-p load " + fa, r)) same("cli/load-p", a, r);
+			if (run("isect-s", "-s isect " + fa + " " + fb, r)) bin("cli/isect-s", a, b, r, false);
+			if (run("union-s", "-s union " + fa + " " + fb, r)) bin("cli/union-s", a, b, r, true);
+			if (run("witness", "witness " + fa, r))
+			{
+				rm::JointW K = rm::jointWord({&a, &r}, nsym); bool ne = false, nea = false, sub = true;
+				for (auto& m : K.reach) { if (K.acc(m, 1) && !K.acc(m, 0)) sub = false; if (K.acc(m, 1)) ne = true; if (K.acc(m, 0)) nea = true; }
+				if (!K.capped && !sub) R->violation("C10/cli/witness/not-sublanguage", ""); if (!K.capped && nea && !ne) R->violation("C10/cli/witness/empty-witness", "");
+			}
+		}
 	}
 	catch (std::exception& e) { R->violation("C10/exception", e.what()); }
 }
